@@ -362,6 +362,9 @@ func (fc *followerController) Replicate(stream proto.OxiaLogReplication_Replicat
 
 	closeStreamWg := concurrent.NewWaitGroup(1)
 	fc.closeStreamWg = closeStreamWg
+	// The sync routine acks the entries that get synced after this point, no
+	// matter who triggers the wal sync
+	lastAckedOffset := fc.wal.LastOffset()
 	fc.Unlock()
 
 	go process.DoWithLabels(
@@ -379,7 +382,7 @@ func (fc *followerController) Replicate(stream proto.OxiaLogReplication_Replicat
 			"oxia":  "add-entries-sync",
 			"shard": fmt.Sprintf("%d", fc.shardId),
 		},
-		func() { fc.handleReplicateSync(stream) },
+		func() { fc.handleReplicateSync(stream, lastAckedOffset) },
 	)
 
 	return closeStreamWg.Wait(fc.ctx)
@@ -431,6 +434,13 @@ func (fc *followerController) append(req *proto.Append, stream proto.OxiaLogRepl
 			slog.Int64("commit-offset", req.CommitOffset),
 			slog.Int64("offset", req.Entry.Offset),
 		)
+		if req.Entry.Offset > fc.wal.LastOffset() {
+			// The entry was appended but it is not synced yet. We can only
+			// acknowledge entries that are already durable
+			if err := fc.wal.Sync(stream.Context()); err != nil {
+				return err
+			}
+		}
 		if err := stream.Send(&proto.Ack{Offset: req.Entry.Offset}); err != nil {
 			fc.closeStreamNoMutex(err)
 		}
@@ -451,7 +461,7 @@ func (fc *followerController) append(req *proto.Append, stream proto.OxiaLogRepl
 	return nil
 }
 
-func (fc *followerController) handleReplicateSync(stream proto.OxiaLogReplication_ReplicateServer) {
+func (fc *followerController) handleReplicateSync(stream proto.OxiaLogReplication_ReplicateServer, lastAckedOffset int64) {
 	for {
 		fc.Lock()
 		if err := fc.syncCond.Wait(stream.Context()); err != nil {
@@ -461,8 +471,6 @@ func (fc *followerController) handleReplicateSync(stream proto.OxiaLogReplicatio
 		}
 		fc.Unlock()
 
-		oldHeadOffset := fc.wal.LastOffset()
-
 		if err := fc.wal.Sync(stream.Context()); err != nil {
 			fc.closeStream(err)
 			return
@@ -470,12 +478,13 @@ func (fc *followerController) handleReplicateSync(stream proto.OxiaLogReplicatio
 
 		// Ack all the entries that were synced in the last round
 		newHeadOffset := fc.wal.LastOffset()
-		for offset := oldHeadOffset + 1; offset <= newHeadOffset; offset++ {
+		for offset := lastAckedOffset + 1; offset <= newHeadOffset; offset++ {
 			if err := stream.Send(&proto.Ack{Offset: offset}); err != nil {
 				fc.closeStream(err)
 				return
 			}
 		}
+		lastAckedOffset = newHeadOffset
 
 		fc.applyEntriesCond.Signal()
 	}
